@@ -58,8 +58,32 @@ def norm_try_stmt(st):
         and src(st.value.value.func) == "asyncio.start_server"
     ):
         args = st.value.value.args
+        kws = {k.arg: src(k.value) for k in st.value.value.keywords if k.arg is not None}
         if len(args) >= 3 and src(args[2]) == "port":
-            return "await:start_server"
+            if "start_serving" not in kws:
+                return "await:start_server"
+            if kws["start_serving"] == "False":
+                return "await:start_server:noserve"  # bound, not serving: no suspension after the bind in here
+    # repaired shape: the second suspension point happens while the coroutine holds the handle
+    if t == "if start_serving:\n    await passive_server.start_serving()" or t == "await passive_server.start_serving()":
+        return "await:start_serving"
+    # repaired shape: a listener stored meanwhile by an overlapping PASV/EPSV is kept, this one is given back
+    if isinstance(st, ast.If) and src(st.test) == "connection.future.passive_server.done()" and not st.orelse:
+        acts = []
+        for b in st.body:
+            tb = src(b)
+            if tb == "passive_server.close()":
+                acts.append("close")
+            elif tb.startswith("self.available_data_ports.put_nowait(") and isinstance(b.value.args[0], ast.Tuple):
+                a = b.value.args[0]
+                acts.append(f"put:{src(a.elts[0])}:{src(a.elts[1])}")
+            elif isinstance(b, ast.Return) and b.value is not None:
+                acts.append("return:" + src(b.value))
+            elif tb.startswith("logger."):
+                pass
+            else:
+                raise Unclassified(f"_start_passive_server recheck statement: {tb}")
+        return "recheck:" + ",".join(acts)
     if t == "connection.passive_server_port = port":
         return "setport"
     if isinstance(st, ast.Break):
@@ -82,6 +106,8 @@ def norm_handler_stmt(st):
     if isinstance(st, ast.If) and not st.orelse and len(st.body) == 1 and isinstance(st.body[0], ast.Raise) and st.body[0].exc is None:
         if src(st.test) == "err.errno != errno.EADDRINUSE":
             return "unless:EADDRINUSE=>raise"
+    if t == "if passive_server is not None:\n    passive_server.close()":
+        return "closeif:passive_server"
     if t.startswith("logger."):
         return None
     raise Unclassified(f"_start_passive_server except statement: {t}")
@@ -92,14 +118,22 @@ def start_passive_facts(fn):
     top = [s for s in fn.body if not (isinstance(s, ast.Expr) and isinstance(s.value, ast.Constant))]
     if not (isinstance(top[0], ast.If) and src(top[0].test) == "self.available_data_ports is not None"):
         raise Unclassified("_start_passive_server: outer `if self.available_data_ports is not None` not found")
-    body = top[0].body
+    body = list(top[0].body)
+    # statements that only prepare the keyword arguments of start_server (they do not touch the pool)
+    PRELUDE = ("extra = dict(self._start_server_extra_arguments)", "start_serving = extra.pop('start_serving', True)")
+    body = [b for b in body if src(b) not in PRELUDE]
     if not (len(body) == 2 and src(body[0]) == "viewed_ports = set()" and isinstance(body[1], ast.While) and src(body[1].test) == "True"):
         raise Unclassified("_start_passive_server: `viewed_ports = set(); while True:` not found")
     loop = body[1]
-    if len(loop.body) != 1 or not isinstance(loop.body[0], ast.Try) or loop.orelse:
+    lbody = list(loop.body)
+    pre = []
+    if len(lbody) == 2 and src(lbody[0]) == "passive_server = None":
+        pre = ["init:none"]  # the handle of a listener bound in this iteration, for the handlers
+        lbody = lbody[1:]
+    if len(lbody) != 1 or not isinstance(lbody[0], ast.Try) or loop.orelse:
         raise Unclassified("_start_passive_server: loop body is not a single try")
-    tr = loop.body[0]
-    stmts = [x for x in (norm_try_stmt(s) for s in tr.body) if x is not None]
+    tr = lbody[0]
+    stmts = pre + [x for x in (norm_try_stmt(s) for s in tr.body) if x is not None]
     handlers = []
     for h in tr.handlers:
         typ = src(h.type) if h.type is not None else "<bare>"
@@ -172,7 +206,12 @@ def generate(src_dir):
     out += "Definition sps_handlers : list (string * list string) :=\n  ["
     out += "; ".join(f"({S(t)}, {slist(a)})" for t, a in handlers) + "].\n"
     out += f"Definition sps_has_finally : bool := {emit.boolean(has_finally)}.\n"
-    out += f"Definition sps_has_else : bool := {emit.boolean(has_else)}.\n\n"
+    out += f"Definition sps_has_else : bool := {emit.boolean(has_else)}.\n"
+    giveback = any(t == "BaseException" for t, _ in handlers)
+    recheck = any(x.startswith("recheck:") for x in stmts)
+    out += "(* which shape the model is run with; check_ladder (Model/PortPool.v) accepts exactly the shapes that justify them *)\n"
+    out += f"Definition sps_giveback : bool := {emit.boolean(giveback)}.\n"
+    out += f"Definition sps_recheck : bool := {emit.boolean(recheck)}.\n\n"
     out += "(* pasv / epsv: except clauses around `connection.passive_server = await coro` *)\n"
     out += "Definition passive_except : list (string * list (string * list string)) :=\n  ["
     rows = []
